@@ -263,8 +263,11 @@ def model_exe():
 
 def run_model(stream, text, timeout=600):
     """pipe `text` (lines) to the compiled model driver; returns list of output lines"""
-    p = subprocess.run([model_exe(), stream], input=text.encode(), stdout=subprocess.PIPE,
-                       stderr=subprocess.PIPE, timeout=timeout)
+    for attempt in range(3):
+        p = subprocess.run([model_exe(), stream], input=text.encode(), stdout=subprocess.PIPE,
+                           stderr=subprocess.PIPE, timeout=timeout)
+        if p.returncode >= 0:
+            break               # killed by a signal (host memory pressure): not an answer of the model, run it again
     if p.returncode != 0:
         raise RuntimeError("model driver failed rc=%d: %s" % (p.returncode, p.stderr.decode()[-500:]))
     return p.stdout.decode().split("\n")
